@@ -33,6 +33,7 @@ import (
 	"github.com/lindb/lindb/kv/table"
 	"github.com/lindb/lindb/kv/version"
 	"github.com/lindb/lindb/pkg/lockers"
+	"github.com/lindb/lindb/pkg/verifhook"
 )
 
 //go:generate mockgen -source ./store.go -destination=./store_mock.go -package kv
@@ -369,6 +370,7 @@ func (s *store) deleteObsoleteFiles() {
 		if fileName == currentManifest {
 			continue
 		}
+		verifhook.Yield("kv.fs.removeManifest")
 		if err := removeFunc(filepath.Join(s.path, fileName)); err != nil {
 			kvLogger.Error("delete obsolete manifest file fail",
 				logger.String("store", s.path), logger.String("file", fileName))
